@@ -41,13 +41,15 @@ byte_array::byte_array(size_t size, unsigned char value)
 
 unsigned char &byte_array::operator[](size_t pos)
 {
-    detach();
+    if (!p || p->ref > 1)
+        detach();
     return p->data[pos];
 }
 
 const unsigned char &byte_array::operator[](size_t pos) const
 {
-    detach();
+    if (!p || p->ref > 1)
+        detach();
     return p->data[pos];
 }
 
@@ -78,7 +80,8 @@ void byte_array::push_back(unsigned char value)
 void byte_array::pop_back()
 {
     if (p && p->size > 0) {
-        detach();
+        if (p->ref > 1)
+            detach();
         --(p->size);
     }
 }
